@@ -25,7 +25,7 @@ import warnings
 
 from traits.api import (
     HasTraits, MetaHasTraits, TraitType, TraitError, Trait, Int, Str, Any, List, Dict, Set,
-    Tuple, Union, Either, Instance, Supports, Property, Interface, provides, cached_property,
+    Tuple, Union, Either, Instance, Supports, AdaptsTo, Property, Interface, provides, cached_property,
     push_exception_handler, pop_exception_handler,
 )
 from traits.adaptation.api import (
@@ -308,18 +308,23 @@ MAIN_TRAITS = {
     "dct": ("container", "D[]"), "st": ("container", "S[]"),
     "dyn": ("dynamic", "5"), "dv": ("dynamic", "15"), "box": ("dynamic", "Box:Box()"),
     "_p": ("scalar", "0"), "sup": ("adapt", "None"), "child": ("instance", "None"),
+    # adaptation mode 2 (adapt='default': a value that cannot be adapted silently becomes the default)
+    "supd": ("adapt", "None"), "insd": ("adapt", "None"), "ada": ("adapt", "None"),
+    # shadow attributes written by Supports/AdaptsTo.post_setattr (plain __dict__ entries)
+    "sup_": ("shadow", "None"), "supd_": ("shadow", "None"), "ada_": ("shadow", "None"),
 }
-PROPS = ("p", "cp", "dp")
+ADAPT_DEFAULT_MODE = ("supd", "insd", "ada")
+PROPS = ("p", "cp", "dp", "dn")
 EXTRA_CENSUS = PROPS + ("lst_items", "lu_items", "lazy_items", "dct_items", "st_items", "trait_added")
 CHILD_TRAITS = {"v": ("scalar", "0"), "w": ("scalar", "0"), "tag": ("scalar", "None")}
 
 STATIC_CANDS = ["i", "t", "f", "un", "ei", "tu", "lst", "lst_items", "lu_items", "dct", "dct_items",
-                "st_items", "dyn", "dv", "lazy_items", "p", "cp", "dp", "sup", "child", "_p", "box"]
+                "st_items", "dyn", "dv", "lazy_items", "p", "cp", "dp", "dn", "sup", "supd", "insd", "ada", "child", "_p", "box"]
 OTC_CANDS = ["i", "t", "f", "s", "un", "ei", "tu", "lst", "lst_items", "lu_items", "dct_items",
-             "st", "st_items", "dyn", "dv", "lazy", "lazy_items", "p", "cp", "dp", "sup", "child",
+             "st", "st_items", "dyn", "dv", "lazy", "lazy_items", "p", "cp", "dp", "dn", "sup", "supd", "insd", "ada", "child",
              "child.v", "_p", "box"]
 OBS_CANDS = ["i", "t", "f", "s", "un", "ei", "tu", "lst", "lst.items", "lu.items", "dct.items",
-             "dct", "st.items", "dyn", "dv", "lazy.items", "lazy", "p", "cp", "dp", "sup", "child",
+             "dct", "st.items", "dyn", "dv", "lazy.items", "lazy", "p", "cp", "dp", "dn", "sup", "supd", "insd", "ada", "child",
              "child.v", "child:v", "_p", "box"]
 
 
@@ -396,6 +401,10 @@ def make_classes(env, cfg):
         fp.tick("cached-getter", ("W", "dp"))
         return self.i * 3
 
+    def _get_dn(self):
+        fp.tick("getter", ("W", "dn"))
+        return self.i + 7
+
     cns = {
         "v": VT(env, "validator-traittype"),
         "w": Int(0),
@@ -427,8 +436,12 @@ def make_classes(env, cfg):
         "p": Property(VT(env, "prop-validator"), observe="_p,t"),
         "_p": Int(0),
         "cp": Property(observe="t"),
-        "dp": Property(depends_on="i"),
+        "dp": Property(depends_on="i"),          # legacy depends_on, cached
+        "dn": Property(depends_on="i"),          # legacy depends_on, not cached
         "sup": Supports(IFoo),
+        "supd": Supports(IFoo, adapt="default"),
+        "insd": Instance(IFoo, adapt="default"),
+        "ada": AdaptsTo(IFoo, adapt="default"),
         "child": Instance(Child),
         "_dyn_default": _dyn_default,
         "_dv_default": _dv_default,
@@ -437,6 +450,7 @@ def make_classes(env, cfg):
         "_set_p": _set_p,
         "_get_cp": cached_property(_get_cp),
         "_get_dp": cached_property(_get_dp),
+        "_get_dn": _get_dn,
         "__repr__": lambda self: "W",
     }
     for nm in cfg["static"]:
@@ -879,15 +893,38 @@ def gen_op(rng, idx):
         return ("set-clear", "st")
     if c < 83:      # reads (defaults, properties)
         return ("get", rng.choice(["dyn", "dv", "dv", "lazy", "lazy", "box", "box", "box", "p", "cp", "cp", "dp",
-                                   "lst", "sup", "t"]))
+                                   "dp", "dn", "lst", "sup", "supd", "ada", "t"]))
     if c < 89:      # property set
         return ("set", "p", rng.choice([_int(rng), _int(rng), _int(rng), "x"]))
     if c < 95:      # adaptation
-        return ("set", "sup", rng.choice([("@", "src", idx), ("@", "src", idx), ("@", "cond", idx),
-                                          ("@", "foo", idx), None, 5]))
+        return gen_adapt_op(rng, idx)
     if c < 98:
         return ("set", "child", rng.choice([("@", "child", idx), ("@", "child", idx), None]))
     return ("child-set", rng.choice(["v", "v", "w"]), rng.choice([_int(rng), _int(rng), "x"]))
+
+
+def gen_adapt_op(rng, idx):
+    return ("set", rng.choice(["sup", "sup", "supd", "supd", "insd", "insd", "ada"]),
+            rng.choice([("@", "src", idx), ("@", "src", idx), ("@", "cond", idx), ("@", "foo", idx),
+                        ("@", "foo", idx), None, 5]))
+
+
+def gen_prop_op(rng, idx):
+    """Operations around the four properties and their dependencies."""
+    c = rng.randrange(20)
+    if c < 4:
+        return ("get", "dp")
+    if c < 7:
+        return ("get", "cp")
+    if c < 9:
+        return ("get", rng.choice(["p", "dn"]))
+    if c < 13:
+        return ("set", "i", rng.choice([_int(rng), _int(rng), _int(rng), _int(rng), "x"]))
+    if c < 17:
+        return ("set", "t", rng.choice([_int(rng), _int(rng), _int(rng), _int(rng), "x"]))
+    if c < 19:
+        return ("set", rng.choice(["p", "_p"]), _int(rng))
+    return gen_op(rng, idx)
 
 
 def watched(cfg):
@@ -909,15 +946,39 @@ def watched(cfg):
         w.update(("_p", "t"))
     if "cp" in w:
         w.add("t")
-    if "dp" in w:
+    if "dp" in w or "dn" in w:
         w.add("i")
     return w
 
 
-def gen_history(rng):
+def _force(rng, cfg, names, mechs=("static", "otc", "obs")):
+    """Give every name in `names` at least one listener (of a random mechanism)."""
+    for nm in names:
+        for m in rng.sample(mechs, rng.randint(1, len(mechs))):
+            if nm not in cfg[m]:
+                cfg[m] = sorted(cfg[m] + [nm])
+
+
+def gen_history(rng, stratum="general"):
+    """Strata: 'general' draws from the whole alphabet; 'property' concentrates on the cached /
+    uncached, observe= / depends_on= properties and their dependencies (fill the cache, change
+    a dependency, read again ... with listeners of every mechanism on the properties);
+    'adapt' on Supports/Instance/AdaptsTo in both adaptation modes with listeners attached."""
     cfg = gen_config(rng)
     n = rng.randint(8, 12)
     ops = []
+    if stratum == "property":
+        _force(rng, cfg, ["dp", "cp"])
+        _force(rng, cfg, rng.sample(["p", "dn", "i", "t"], 2))
+        while len(ops) < n:
+            ops.append(gen_prop_op(rng, len(ops)))
+        return cfg, ops
+    if stratum == "adapt":
+        _force(rng, cfg, ["supd", "insd"])
+        _force(rng, cfg, rng.sample(["sup", "ada"], 1))
+        while len(ops) < n:
+            ops.append(gen_adapt_op(rng, len(ops)) if rng.random() < 0.65 else gen_op(rng, len(ops)))
+        return cfg, ops
     w = watched(cfg)
     # a child early in a third of the histories so nested observers have a target
     if rng.random() < 0.35 or (w is not None and "v" in w and rng.random() < 0.8):
@@ -928,6 +989,11 @@ def gen_history(rng):
             op = gen_op(rng, len(ops))        # second draw: bias towards watched attributes
         ops.append(op)
     return cfg, ops
+
+
+def stratum_of(h):
+    r = h % 10
+    return "property" if r in (3, 7) else "adapt" if r == 5 else "general"
 
 
 # ---------------------------------------------------------------------------
@@ -1036,8 +1102,24 @@ def first_pre_complaint(E, r, pre):
     return None, ""
 
 
-def relax_old(log, subj):
-    return [(e[0], e[1], e[2], "*", e[4]) if (e[1], e[2]) == subj else e for e in log]
+# what `old` may read when the previous value of a cached property could not be computed
+UNKNOWN_OLD = ("_Undefined:<undefined>", "None")
+
+
+def logs_agree(a, b, relax):
+    """a: faulted graph's log, b: twin's.  With relax=(object, name): an entry of a about that
+    subject may report an *unknown* old value where the twin reports the cached one."""
+    if a == b:
+        return True
+    if relax is None or len(a) != len(b):
+        return False
+    for x, y in zip(a, b):
+        if x == y:
+            continue
+        if (x[1], x[2]) == relax and x[3] in UNKNOWN_OLD and x[:3] == y[:3] and x[4:] == y[4:]:
+            continue
+        return False
+    return True
 
 
 def same_run(r, t, relax=None):
@@ -1051,9 +1133,7 @@ def same_run(r, t, relax=None):
     if dc:
         return "census %r" % [(k, r.cen.get(k), t.cen.get(k)) for k in dc[:4]]
     a, b = strip(r.log), strip(t.log)
-    if relax is not None:
-        a, b = relax_old(a, relax), relax_old(b, relax)
-    if a != b:
+    if not logs_agree(a, b, relax):
         return "log %r vs %r" % (a[:6], b[:6])
     if [c[:2] for c in r.chan] != [c[:2] for c in t.chan]:
         return "channels %r vs %r" % (r.chan, t.chan)
@@ -1065,13 +1145,15 @@ class History:
         self.ctx = ctx
         self.h = h
         rng = ctx.rng("hist", h)
-        self.cfg, self.ops = gen_history(rng)
+        self.stratum = stratum_of(h)
+        self.cfg, self.ops = gen_history(rng, self.stratum)
         self.env = Env()
         self.classes = make_classes(self.env, self.cfg)
         self.without = {}
 
     def witness(self, **kw):
-        w = {"history": self.h, "handlers": self.cfg, "ops": [repr(o) for o in self.ops]}
+        w = {"history": self.h, "stratum": self.stratum, "handlers": self.cfg,
+             "ops": [repr(o) for o in self.ops]}
         w.update(kw)
         return w
 
@@ -1094,6 +1176,9 @@ class History:
             ctx.ev()
             ctx.count("followup_ops_compared")
             d = same_run(r, ref.res[m], relax)
+            if relax is not None and any((e[2], e[3]) == relax for e in r.log):
+                # the faulted cached property was notified again later in the history
+                ctx.count("cached_property_renotified_after_fault:" + relax[1])
             if d is None and r.stale:
                 d = "cached property %s is stale" % r.stale
             if d is not None:
@@ -1118,6 +1203,7 @@ class History:
         env, ops, cfg, classes = self.env, self.ops, self.cfg, self.classes
         twin = Trace(env, classes, cfg, ops, learn=True)
         ctx.count("histories")
+        ctx.count("histories:" + self.stratum)
         ninj = 0
         for j, op in enumerate(ops):
             tr = twin.res[j]
@@ -1152,6 +1238,12 @@ class History:
                     ctx.ev()
                     ctx.count("faults_injected")
                     ctx.count("faults:" + kind)
+                    if kind == "adapter-factory" and op[1] in ADAPT_DEFAULT_MODE:
+                        ctx.count("faults:adapter-factory:default-mode")
+                        cur = pre_g[0].get(("W", op[1]))
+                        if cur is not None and cur[0] != "None" and pre_g[1].get(("W", op[1])):
+                            # the trait holds a non-default value and carries change handlers
+                            ctx.count("faults:adapter-factory:default-mode:holding-value")
                     if env.fp.raised is None or r.kinds[:k] != kinds[:k]:
                         ctx.violation("harness/nondeterministic-replay",
                                       "tick %d of op %d was %r in the twin, replay saw %r"
@@ -1222,6 +1314,7 @@ class History:
                             if EXEMPT_FAULTED_PROPERTY:
                                 exempt = tr.subj[k - 1]
                             ctx.count("postcommit_getter_faults")
+                            ctx.count("postcommit_getter_faults:" + tr.subj[k - 1][1])
                         if r.out != tr.out:
                             complaint = "exception-reached-caller"
                             detail = "caller saw %r (fault-free outcome %r)" % (r.exc or r.out, tr.out)
